@@ -182,6 +182,13 @@ def special_stream():
               "count(//*[string-length(normalize-space()) = string-length()])", "//*[number() = number()]", "sum(//i)", "//i[. > 0]",
               "//*[lang('en')]", "//a[normalize-space(@x) = '1\u00a02']", "//a[@x = 3]", "//a[@x > 0]"):
         ex.append(e)
+    # rounding where `floor(x + 0.5)` is not round(x): just below one half, odd integers from 2^52 on, ties, both zeros - as
+    # values, as arguments of substring and as numeric predicates (round-7 seed C05-I)
+    for x in ("0.49999999999999994", "-0.49999999999999994", "4503599627370497", "4503599627370495.5", "9007199254740991", "0.5", "-0.5",
+              "1.5", "2.5", "-1.5", "-2.5", "-0", "0", "(0 div 0)", "(1 div 0)", "(-1 div 0)", "1e0"):
+        ex += ["round(%s)" % x, "1 div round(%s)" % x, "floor(%s)" % x, "ceiling(%s)" % x, "round(%s) = floor(%s)" % (x, x),
+               "substring('abcde', 1, %s)" % x, "substring('abcde', %s, 2)" % x, "substring('abcde', %s)" % x,
+               "count(//*[round(%s)])" % x, "string(round(%s))" % x]
     return ex
 
 
@@ -643,8 +650,8 @@ def run_c06(chk):
                 if not (r["status"] == "panic" and i_ > 0 and ops[i_ - 1].split(":")[0] in ("ct", "cc", "cd")):
                     worst = r["status"]
                 break
-            if "panic" in (r["flags"].get("q") or ""):
-                worst = "panic"
+            if "panic" in (r["flags"].get("q") or "") or "panic" in (r.get("dump") or ""):
+                worst = "panic"            # while the battery was evaluated / while the same nodes were walked for the dump
                 break
         if worst:
             bad.append((t, "edited-expanded", "dom history (text-expanded view): " + " ".join(ops) + "  then the query battery", worst))
@@ -1071,8 +1078,11 @@ def run_c10(chk):
         es = NS_BATTERY + extra
         qs.append((t, XP.BINDINGS, es + NAME_BATTERY))
         # the same final bindings reached through a history of re-bindings of the same prefixes
+        # ... or of bindings of other prefixes and of the default that were taken out again (first, middle, several of them)
         qs_rb.append((t, rng.choice(["p=urn:u2;q=urn:u1;p=urn:u1;q=urn:u2", "p=urn:zz;p=urn:u1;q=urn:u2", "q=urn:u1;p=urn:u1;q=urn:u2",
-                                     "p=urn:u1;q=urn:u2;p=urn:u1"]), es))
+                                     "p=urn:u1;q=urn:u2;p=urn:u1", "=urn:u9;a=urn:u8;p=urn:u1;q=urn:u2;!;!a",
+                                     "a=urn:u8;p=urn:u1;q=urn:u2;z=urn:u7;!a;!z", "z=urn:u7;p=urn:u9;q=urn:u2;b=urn:u6;!p;p=urn:u1;!z;!b",
+                                     "=urn:u9;a=urn:u8;b=urn:u7;p=urn:u1;q=urn:u2;!a;!;!b", "=urn:u9;a=urn:u8;q=urn:u2;p=urn:u1;!"]), es))
         # renaming the document's prefixes: p->pp, q->qq, z->w (name() excluded: it shows the prefix)
         qs_rd.append((rename_doc(t, {"p": "pp", "q": "qq", "z": "w"}), XP.BINDINGS, es))
         # renaming the expression's prefixes together with the caller's bindings
@@ -1108,7 +1118,9 @@ def run_c10(chk):
     SCOPE_Q += ["//@xml:lang", "//@xml:space", "count(//@xml:*)", "namespace-uri((//@xml:space)[last()])", "//*[lang('de')]",
                 "name((//*)[last()]/namespace::xml)", "string((//*)[last()]/namespace::p)", "(//*)[last()]/@xml:space"]
     for sd in SCOPE_DOCS:
-        for bnd in ("=urn:u1;p=urn:u1;q=urn:u2", "=urn:u2;p=urn:u1;q=urn:u2", XP.BINDINGS, "=urn:u1;p=urn:u2;q=urn:u1"):
+        for bnd in ("=urn:u1;p=urn:u1;q=urn:u2", "=urn:u2;p=urn:u1;q=urn:u2", XP.BINDINGS, "=urn:u1;p=urn:u2;q=urn:u1",
+                    # the caller binds `xml` itself (the expression side has no implicit bindings): name tests on xml:lang / xml:space
+                    XP.BINDINGS + ";xml=http://www.w3.org/XML/1998/namespace"):
             qs_df.append((sd, bnd, SCOPE_Q))
     impl_df, spec_df = XP.run_queries("qfresh", qs_df, quirks="")
     spec = lib.run_lines(lib.model_driver(), [lib.req("queryq", "", t, b, *es) for t, b, es in qs], timeout=900)
